@@ -57,7 +57,9 @@ CONSTANTS
   DocFlags,      \* doc-level flags allowed to be 1: subset of {"ds","de","zi","cmp","fsp"}
   Avoid,         \* known loader / validator defects (known_findings.d/C14.json, C18.json) whose
                  \* trigger is NOT generated, so that larger random documents are not all masked
-                 \* by them: subset of {"K1","K2","V1","V2"}; {} in the exhaustive small-scope runs
+                 \* by them: subset of {"K1","K2","V1","V2","V3"} (C14/C18) and of
+                 \* {"AK" no anchors on keys, "HC" no indicator-looking comment text, "SA" (YqWrite) no `get` of a
+                 \* subtree that holds an alias to an anchor outside it} (C15, known_findings.d/C15.json); {} in the exhaustive small-scope runs
   Sim            \* TRUE under -simulate: every choice inside an action is drawn at random
                  \* (one successor per action kind), so random walks are cheap and the tree
                  \* shape is not dominated by the many scalar alternatives
@@ -235,6 +237,17 @@ CompactDedent(ns) ==
            vals == IF ns[c].k = "seq" THEN kids ELSE [j \in 1..(Len(kids) \div 2) |-> kids[2 * j]]
        IN \E j \in 1..(Len(vals) - 1) : ns[vals[j]].k \in {"map", "seq"} /\ ns[vals[j]].st = "block"
 
+\* V3: a compact collection in a sequence one of whose entries other than the last has a BLOCK
+\* SCALAR as its value: the validator takes the dash line's indentation as the scalar's parent
+\* indentation and swallows the following entries (at dash column + 2) as scalar body, so an
+\* anchor declared there is never recorded (UnknownAnchor for a later alias)
+CompactBlockScalar(ns) ==
+  \E c \in 1..Len(ns) :
+    /\ ns[c].k \in {"map", "seq"} /\ ns[c].st = "block" /\ ns[c].r = "item" /\ ns[c].an = 0 /\ ns[c].cm = 0
+    /\ LET kids == KidsOf(ns, c)
+           vals == IF ns[c].k = "seq" THEN kids ELSE [j \in 1..(Len(kids) \div 2) |-> kids[2 * j]]
+       IN \E j \in 1..(Len(vals) - 1) : ns[vals[j]].st \in {"lit", "fold"}
+
 \* V2: a block mapping whose first key carries an anchor (its first line starts with `&`, which
 \* the validator does not take as establishing the mapping's level) and in which an entry other
 \* than the last has a block collection as its value
@@ -286,6 +299,8 @@ AddScalar ==
           \* followed by a comment that contains `: ` is not generated
           /\ (role \in {"root", "item"} /\ st \in {"plain", "lit", "fold"} => cm # 2)
           /\ ("K1" \in Avoid /\ role = "root" /\ st \in {"lit", "fold"} => cm = 0 /\ ~HasColonSpace(PAL[t].s))
+          /\ ("AK" \in Avoid /\ role = "key" => an = 0)
+          /\ ("HC" \in Avoid => cm # 2 /\ pre # 3)
           /\ ("K2" \in Avoid /\ role = "key" /\ st \in {"single", "double"} => ~AfterEmptyTop)
           /\ dec' = dec + Cost(an, cm, pre, vr)
           /\ \E ch \in Pick(IF st \in {"lit", "fold"} THEN ChompT[t] ELSE {""}) :
@@ -300,6 +315,7 @@ AddAlias ==
      \E cm \in Pick(Cms(FALSE)), pre \in Pick(Pres) :
        /\ 1 + Cost(0, cm, pre, 0) <= Budget
        /\ (Role = "item" => cm # 2)      \* same documented limitation as for plain scalars
+       /\ ("HC" \in Avoid => cm # 2 /\ pre # 3)
        /\ dec' = dec + 1 + Cost(0, cm, pre, 0)
        /\ Push(Node("alias", Par, Role, 0, "alias", "", 0, 0, tg, cm, pre), FALSE)
 
@@ -310,6 +326,7 @@ Open ==
         an \in Pick(B({0, 1})), pre \in Pick(B(Pres)) :
        \E cm \in Pick(B(Cms(st = "block"))) :
             /\ Cost(an, cm, pre, 0) <= Budget
+            /\ ("HC" \in Avoid => cm # 2 /\ pre # 3)
             /\ dec' = dec + Cost(an, cm, pre, 0)
             /\ Push(Node(k, Par, Role, 0, st, "", 0, an, 0, cm, pre), TRUE)
 
@@ -335,6 +352,7 @@ EndDoc ==
        IN /\ cost <= Budget
           /\ ("V1" \in Avoid /\ cmp = 1 => ~CompactDedent(nodes))
           /\ ("V2" \in Avoid => ~AnchoredFirstKey(nodes))
+          /\ ("V3" \in Avoid /\ cmp = 1 => ~CompactBlockScalar(nodes))
           /\ dec' = dec + cost
           /\ docs' = Append(docs, [nodes |-> nodes, used |-> Used,
                                    o |-> [ds |-> ds, de |-> de, w |-> w, zi |-> zi, cmp |-> cmp, fsp |-> fsp]])
